@@ -1,4 +1,5 @@
 import QG.Lemmas.Reuse
+import QG.Props.C10
 
 /-!
 # C11 — running is pure: objects are reusable
@@ -20,8 +21,13 @@ every run by exact correspondence on random histories, `harness/props/c11.py`).
 * `bin_step_grows`, `layer_step_grows`: a build call never alters what is already registered (items / completed
   layers only grow), so a later evaluation includes everything an earlier one included.
 
-What a value-semantic model cannot exhibit — aliasing between the inputs of `run` and the objects it mutates — is
-covered by the before/after comparison of the real inputs in the harness, not by a theorem (see DESIGN.md, C11).
+The first sentence of the property (a run modifies none of its inputs) is about aliasing.  It is stated on the shot
+loop of `QG.Model.IntegratorCache` (C10), in which a shot may do *anything* to the objects it is handed and what reaches
+the caller's objects is decided by how `_perform_simulation` builds the argument dict of a shot — a table **regenerated
+from simulator.py on every run** (`QG.Gen.Determinism.shotArgs`: `copy.deepcopy(...)` of the caller's object, a fresh
+object built from deep copies, or the caller's object itself): `run_shot_arguments_are_copies`, `run_inputs_untouched`,
+`run_repeatable`.  What the table cannot see (a write to a caller's object outside the shot dict, e.g. in the
+pre-processing) is covered by the bit-exact before/after comparison of the real inputs in the harness.
 -/
 namespace QG.C11
 open QG.Model.Wiring QG.Model.Reuse QG.Lemmas.Reuse
@@ -265,6 +271,43 @@ theorem layer_step_grows (P : PhaseOps Φ) (st st' : LayerState Φ) (c : CircCal
     split at h
     · cases h
     · have := lapply2_grows _ st' i _ _ h; exact this
+
+/-! ## a run leaves its inputs untouched (shot loop of C10's model, regenerated argument table) -/
+
+section Run
+open QG.Model.IntegratorCache QG.IntegratorCache QG.Gen.Determinism
+variable {V G M S : Type}
+
+/-- every entry of the argument dict `_perform_simulation` builds for a shot — circuit data, circuit object (with its gate
+set), device parameters, initial state, layout — is a deep copy of the caller's object or a fresh object built from deep
+copies; none is the caller's object itself.  `decide` on the table regenerated from simulator.py: it stops checking when a
+`copy.deepcopy` is removed. -/
+theorem run_shot_arguments_are_copies : shotArgsIsolated shotArgs = true := QG.C10.shot_arguments_isolated
+
+/-- whatever the shots do to the objects they are handed (`shot : S → Prog V (M × S)` returns an arbitrarily modified `S`),
+the caller's objects `s` are exactly as before after a sequential run of any number of shots, from any generator state and
+any cache history -/
+theorem run_inputs_untouched (compute : Req → V) (rng : Rng G V) (shot : S → Prog V (M × S)) (s : S)
+    (hshot : ∀ g c, ∀ r ∈ (shot s).reqs config compute rng g c, NoNegZero (r.seen config.coerced))
+    (n : Nat) (g : G) (history : List Req) (hh : ∀ r ∈ history, NoNegZero (r.seen config.coerced)) :
+    (runShots config compute rng (shotArgsIsolated shotArgs) shot n s g (runReqs config compute [] history).1).2.1 = s :=
+  (QG.C10.run_seq_deterministic compute rng shot s hshot n g history hh).2.2.1
+
+/-- hence repeating the run from the same generator state (a deterministic gate set, or the same seed) on the objects the
+first run left behind gives the identical list of shot results -/
+theorem run_repeatable (compute : Req → V) (rng : Rng G V) (shot : S → Prog V (M × S)) (s : S)
+    (hshot : ∀ g c, ∀ r ∈ (shot s).reqs config compute rng g c, NoNegZero (r.seen config.coerced))
+    (n : Nat) (g : G) (history : List Req) (hh : ∀ r ∈ history, NoNegZero (r.seen config.coerced)) :
+    let warm := (runReqs config compute [] history).1
+    let first := runShots config compute rng (shotArgsIsolated shotArgs) shot n s g warm
+    let second := runShots config compute rng (shotArgsIsolated shotArgs) shot n first.2.1 g first.2.2.2
+    second.1 = first.1 :=
+  QG.C10.run_seq_repeatable compute rng shot s hshot n g history hh
+
+/-- the model tells the faulty construction apart: with one shared (not copied) argument the loop is *not* isolated -/
+example : shotArgsIsolated (("psi0", ShotArg.shared) :: shotArgs) = false := by decide
+
+end Run
 
 /-! ## non-vacuity: concrete histories -/
 
